@@ -2446,6 +2446,62 @@ func n9Mutable(coll ssa.Value) (fieldOf *types.Var, mutable bool) {
 }
 
 // n9LowerBound: greatest lb such that len(coll) >= lb on every path from the entry to `at`.
+var n9Depth = 0
+
+// n9EntryBound: for a parameter of an unexported, never address-taken function, the least
+// lower bound of the argument's length over all call sites (a precondition the callers establish).
+func n9EntryBound(fn *ssa.Function, coll ssa.Value) int64 {
+	prm, ok := coll.(*ssa.Parameter)
+	if !ok || prm.Parent() != fn || n9Depth >= 2 || fn.Object() == nil || fn.Object().Exported() {
+		return 0
+	}
+	idx := -1
+	for i, q := range fn.Params {
+		if q == prm {
+			idx = i
+		}
+	}
+	if idx < 0 {
+		return 0
+	}
+	min := int64(1) << 40
+	n := 0
+	bad := false
+	for _, g := range curProg.Funcs {
+		eachInstr(g, func(in ssa.Instruction) {
+			for _, op := range in.Operands(nil) {
+				if f, ok := (*op).(*ssa.Function); ok && f == fn {
+					if ci, ok := in.(ssa.CallInstruction); !ok || ci.Common().Value != f {
+						bad = true
+					}
+				}
+			}
+			ci, ok := in.(ssa.CallInstruction)
+			if !ok || ci.Common().StaticCallee() != fn || idx >= len(ci.Common().Args) {
+				return
+			}
+			n++
+			arg := ci.Common().Args[idx]
+			n9Depth++
+			lb := int64(0)
+			if l, ok := n9FixedLen(arg, 0); ok {
+				lb = l
+			}
+			if l2 := n9LowerBound(g, in, arg); l2 > lb {
+				lb = l2
+			}
+			n9Depth--
+			if lb < min {
+				min = lb
+			}
+		})
+	}
+	if bad || n == 0 {
+		return 0
+	}
+	return min
+}
+
 func n9LowerBound(fn *ssa.Function, at ssa.Instruction, coll ssa.Value) int64 {
 	const top = int64(1) << 40
 	field, mutable := n9Mutable(coll)
@@ -2483,6 +2539,7 @@ func n9LowerBound(fn *ssa.Function, at ssa.Instruction, coll ssa.Value) int64 {
 	for _, b := range fn.Blocks {
 		in[b], out[b] = top, top
 	}
+	entryLB := n9EntryBound(fn, coll)
 	transfer := func(b *ssa.BasicBlock, lb int64, upto ssa.Instruction) int64 {
 		for _, ins := range b.Instrs {
 			if ins == upto {
@@ -2499,7 +2556,7 @@ func n9LowerBound(fn *ssa.Function, at ssa.Instruction, coll ssa.Value) int64 {
 		for _, b := range fn.Blocks {
 			var nin int64
 			if b == fn.Blocks[0] {
-				nin = 0
+				nin = entryLB
 			} else {
 				nin = top
 				for _, p := range b.Preds {
@@ -4271,4 +4328,259 @@ func evalByteFunc(fn *ssa.Function, arg int64) (int64, bool) {
 		blk = next
 	}
 	return 0, false
+}
+
+// ---------- S7: the interpreter loop keeps no per-thread state of its own ----------
+
+func init() {
+	register("S7", "the interpreter caches nothing on the thread: CallInternal and the unexported helpers it calls with the thread store to no field of Thread other than the step counter (and the profiler's bookkeeping); cancellation state lives only in the atomic cancelReason, so an error, a flag or a budget remembered on the thread cannot go stale across Cancel/Uncancel or survive a panicking hook", 1, ruleS7)
+	claim("C07", "S7")
+}
+
+func ruleS7(c *Ctx) {
+	fn := c.P.Func("starlark", "Function.CallInternal")
+	if fn == nil {
+		c.anchorFail("(*starlark.Function).CallInternal not found")
+		return
+	}
+	var thread ssa.Value
+	for _, p := range fn.Params {
+		if qualType(p.Type()) == "starlark.Thread" {
+			thread = p
+		}
+	}
+	fns := []*ssa.Function{fn}
+	seen := map[*ssa.Function]bool{fn: true}
+	for _, an := range fn.AnonFuncs {
+		fns = append(fns, an)
+		seen[an] = true
+	}
+	eachInstr(fn, func(in ssa.Instruction) {
+		call, ok := in.(ssa.CallInstruction)
+		if !ok || thread == nil {
+			return
+		}
+		cal := call.Common().StaticCallee()
+		if cal == nil || cal.Blocks == nil || fnPkgPath(cal) != modPath+"/starlark" || seen[cal] {
+			return
+		}
+		if cal.Object() != nil && cal.Object().Exported() {
+			return // Call, Load callbacks etc.: API entry points with their own rules (P2, L3, L5)
+		}
+		for _, a := range call.Common().Args {
+			if a == thread {
+				seen[cal] = true
+				fns = append(fns, cal)
+			}
+		}
+	})
+	n := 0
+	allowed := map[string]string{"Steps": "the step counter (S1-S3)", "proftime": "profiler bookkeeping", "profStart": "profiler bookkeeping"}
+	for _, g := range fns {
+		eachInstr(g, func(in ssa.Instruction) {
+			st, ok := in.(*ssa.Store)
+			if !ok {
+				return
+			}
+			fa, ok := st.Addr.(*ssa.FieldAddr)
+			if !ok {
+				return
+			}
+			o, f := ownerField(fa)
+			if o != "starlark.Thread" {
+				return
+			}
+			n++
+			key := fmt.Sprintf("%s: store Thread.%s", fnName(g), f)
+			if why, ok := allowed[f]; ok {
+				c.ok(key, c.P.Pos(st.Pos()), why)
+			} else if r, ok := w3Exceptions[fnName(outermost(g))]; ok {
+				c.except(key, c.P.Pos(st.Pos()), r)
+			} else {
+				c.viol(key, c.P.Pos(st.Pos()), fmt.Sprintf("the interpreter (or a helper it calls with the thread) stores Thread.%s: state remembered on the thread outside the step counter and the atomic cancel reason can outlive the condition it was computed from (a stale error after Uncancel, a guard flag left set by a panic)", f))
+			}
+		})
+	}
+	if n == 0 {
+		c.anchorFail("no store to a Thread field found in the interpreter (expected the step counter)")
+	}
+}
+
+// ---------- R7: values cross into protobuf storage unaltered ----------
+
+func init() {
+	register("R7", "what is stored is what was written: in lib/proto the Go value handed to a protoreflect.ValueOf* constructor is obtained from the Starlark value by type conversion and range-checked integer narrowing only; no text or byte transformation (strings.*, bytes.*, unicode/utf8 repair functions, strconv) lies on the way, so an assignment either stores exactly the value or fails", 10, ruleR7)
+	claim("C20", "R7")
+}
+
+func ruleR7(c *Ctx) {
+	n := 0
+	transformer := func(cal *ssa.Function) bool {
+		if cal == nil || cal.Pkg == nil {
+			return false
+		}
+		switch cal.Pkg.Pkg.Path() {
+		case "strings", "bytes", "unicode/utf8", "unicode", "strconv", "unicode/utf16":
+			switch cal.Name() {
+			case "ValidString", "Valid", "RuneCountInString", "HasPrefix", "HasSuffix", "Contains", "Index", "IndexByte":
+				return false // predicates and measurements do not produce the stored value
+			}
+			return true
+		}
+		return false
+	}
+	for _, fn := range c.P.Funcs {
+		if relPkg(fnPkgPath(fn)) != "lib/proto" {
+			continue
+		}
+		ord := map[string]int{}
+		eachInstr(fn, func(in ssa.Instruction) {
+			call, ok := in.(*ssa.Call)
+			if !ok {
+				return
+			}
+			cal := call.Call.StaticCallee()
+			if cal == nil || cal.Pkg == nil || !strings.HasSuffix(cal.Pkg.Pkg.Path(), "reflect/protoreflect") || !strings.HasPrefix(cal.Name(), "ValueOf") || len(call.Call.Args) != 1 {
+				return
+			}
+			n++
+			base := fmt.Sprintf("%s: %s", fnName(fn), cal.Name())
+			ord[base]++
+			key := base
+			if ord[base] > 1 {
+				key = fmt.Sprintf("%s #%d", base, ord[base])
+			}
+			bad := ""
+			for v := range backSlice(call.Call.Args[0]) {
+				if c2, ok := v.(*ssa.Call); ok && transformer(c2.Call.StaticCallee()) {
+					bad = c2.Call.StaticCallee().String()
+				}
+			}
+			if bad != "" {
+				c.viol(key, c.P.Pos(call.Pos()), fmt.Sprintf("the value stored into the message has passed through %s: the field no longer holds what the program assigned (two distinct inputs can collapse into one), although the assignment reports success", bad))
+			} else {
+				c.ok(key, c.P.Pos(call.Pos()), "conversion only")
+			}
+		})
+	}
+	if n < 10 {
+		c.anchorFail("only %d protoreflect.ValueOf* calls found in lib/proto", n)
+	}
+}
+
+// ---------- Q6: str of a string is that string ----------
+
+func init() {
+	register("Q6", "str(s) is s: in the str built-in, every return on the branch where the argument is a String yields the argument itself - not the result of a call (a transcoding or normalisation would change strings that hold fragments of a UTF-8 sequence)", 1, ruleQ6)
+	claim("C15", "Q6")
+}
+
+func ruleQ6(c *Ctx) {
+	fn := c.P.Func("starlark", "str")
+	if fn == nil {
+		c.anchorFail("starlark.str not found")
+		return
+	}
+	n := 0
+	eachInstr(fn, func(in ssa.Instruction) {
+		ta, ok := in.(*ssa.TypeAssert)
+		if !ok || !ta.CommaOk || !isNamed(ta.AssertedType, "starlark", "String") {
+			return
+		}
+		var okEx, valEx *ssa.Extract
+		for _, r := range *ta.Referrers() {
+			if ex, ok := r.(*ssa.Extract); ok {
+				if ex.Index == 1 {
+					okEx = ex
+				} else {
+					valEx = ex
+				}
+			}
+		}
+		if okEx == nil {
+			return
+		}
+		for _, b := range fn.Blocks {
+			if len(b.Instrs) == 0 {
+				continue
+			}
+			ret, ok := b.Instrs[len(b.Instrs)-1].(*ssa.Return)
+			if !ok || len(ret.Results) != 2 || !isNilConst(ret.Results[1]) {
+				continue
+			}
+			onString := false
+			for _, pc := range pathConds(b) {
+				cond, neg := stripNot(pc.If.Cond)
+				if cond == ssa.Value(okEx) && pc.Branch != neg {
+					onString = true
+				}
+			}
+			if !onString {
+				continue
+			}
+			n++
+			key := "starlark.str: String arm"
+			v := ret.Results[0]
+			if mi, ok := v.(*ssa.MakeInterface); ok {
+				v = mi.X
+			}
+			if (valEx != nil && v == ssa.Value(valEx)) || v == ta.X {
+				c.ok(key, c.P.Pos(ret.Pos()), "returns the argument unchanged")
+			} else {
+				c.viol(key, c.P.Pos(ret.Pos()), "on the branch where the argument is already a string, str returns something other than the argument itself: str(s) != s for some s")
+			}
+		}
+	})
+	if n == 0 {
+		c.viol("starlark.str: String arm", c.P.Pos(fn.Pos()), "str has no branch that returns a String argument unchanged: strings are routed through a conversion")
+	}
+}
+
+// ---------- Z6: decoded constants do not share storage ----------
+
+func init() {
+	register("Z6", "every decoded big-integer constant is its own object: in the program decoder a *big.Int that a loop fills (SetString, SetBytes, Set...) and hands on is allocated inside that loop iteration; a big.Int hoisted out of the loop would make all big constants of a reloaded program alias one value - the last one decoded", 1, ruleZ6)
+	claim("C17", "Z6")
+}
+
+func ruleZ6(c *Ctx) {
+	n := 0
+	inLoop := func(b *ssa.BasicBlock) bool { return reachable(b, b) }
+	for _, fn := range c.P.Funcs {
+		if relPkg(fnPkgPath(fn)) != "internal/compile" {
+			continue
+		}
+		top := outermost(fn)
+		if !strings.Contains(strings.ToLower(top.Name()), "decode") && !(top.Signature.Recv() != nil && strings.Contains(qualType(top.Signature.Recv().Type()), "decoder")) {
+			continue
+		}
+		eachInstr(fn, func(in ssa.Instruction) {
+			call, ok := in.(*ssa.Call)
+			if !ok {
+				return
+			}
+			cal := call.Call.StaticCallee()
+			if cal == nil || cal.Signature.Recv() == nil || !strings.HasPrefix(cal.Name(), "Set") {
+				return
+			}
+			if pp, tn := namedOf(cal.Signature.Recv().Type()); pp != "math/big" || tn != "Int" {
+				return
+			}
+			n++
+			key := fmt.Sprintf("%s: big.Int.%s receiver", fnName(fn), cal.Name())
+			recv := call.Call.Args[0]
+			al, isAlloc := recv.(*ssa.Alloc)
+			switch {
+			case !inLoop(call.Block()):
+				c.ok(key, c.P.Pos(call.Pos()), "not in a loop")
+			case isAlloc && inLoop(al.Block()) && (al.Block() == call.Block() || al.Block().Dominates(call.Block())):
+				c.ok(key, c.P.Pos(call.Pos()), "receiver allocated in the same loop iteration")
+			default:
+				c.viol(key, c.P.Pos(call.Pos()), "a big.Int that is filled inside a decoding loop is not allocated inside that loop: every constant decoded through it is the same pointer, so all of them end up denoting the last value")
+			}
+		})
+	}
+	if n == 0 {
+		c.anchorFail("no big.Int decoding found in the program decoder")
+	}
 }
